@@ -381,6 +381,21 @@ def post_batch(tier, seed):
         if v is not None:
             return {"violation": {"arm": "real multiprocessing.Pool (schedule not controlled; replay = re-run, best effort)",
                                   **v}}
+    # one search picked for the isolation probe (at least 4 combinations, integer scores): executions that share one interpreter
+    # overwrite each other's interpreter-wide state, worker PROCESSES cannot
+    for i in range(200):
+        rng = random.Random(run_seed(seed, "C16-real-isolation", i))
+        sc = generate(rng, tier)
+        size = 1
+        for _, s_ in sc["grid"]:
+            size *= len(as_list(s_))
+        if size >= 4 and all(isinstance(v_, int) for row in sc["scores"] for v_ in row) and not sc.get("numpy_scores") \
+                and all(g_[0] not in ("records", "score") for g_ in sc["grid"]) and sc["base_stop"] >= 2 \
+                and (sc["max_ts"] is None or sc["max_ts"] >= 3):          # (the models must actually take a few steps)
+            v = _real_one(sc)
+            if v is not None:
+                return {"violation": {"arm": "real multiprocessing.Pool (schedule not controlled; replay = re-run, best effort)", **v}}
+            break
     from . import startmethod
     sm = startmethod.run(tier, seed, "search")
     if "violation" in sm:
